@@ -240,13 +240,13 @@ theorem pick_step {first : List Event} {prio : List Key} {s s' : State} {e : Eve
 /-- the scheduler of the correspondence driver only moves inside the reachable states -/
 theorem settle_reachable (first : List Event) (prio : List Key) (n : Nat) {s : State} (h : Reachable s) :
     Reachable (settle first prio n s).1 := by
-  induction n generalizing s with
+  induction n generalizing s first with
   | zero => exact h
   | succ n ih =>
     simp only [settle]
     cases hp : pick first prio s with
     | none => exact h
-    | some p => obtain ⟨e, s'⟩ := p; exact ih (reachable_step h (pick_step hp))
+    | some p => obtain ⟨e, s'⟩ := p; exact ih _ (reachable_step h (pick_step hp))
 
 
 /-! ## proof plumbing shared by the invariant files -/
